@@ -265,6 +265,18 @@ impl BidSide {
     }
 }
 impl AskSide {
+    fn insert_order(&mut self, key: OrderKey, idx: OrderId, vol: Vol)
+        requires
+            old(self).0.sv() + vol <= u32::MAX,
+            old(self).0.lv().contains_key(key.1) ==> old(self).0.lv()[key.1].0 + vol <= u32::MAX && old(self).0.lv()[key.1].1 < u32::MAX,
+        ensures
+            final(self).0.om() == old(self).0.om().insert((key.1, key.2), idx),
+            final(self).0.sv() == old(self).0.sv() + vol,
+            final(self).0.lv() == old(self).0.lv().insert(key.1,
+                if old(self).0.lv().contains_key(key.1) { ((old(self).0.lv()[key.1].0 + vol) as u32, (old(self).0.lv()[key.1].1 + 1) as u32) } else { (vol, 1u32) }),
+    {
+        self.0.insert_order(key, idx, vol)
+    }
     fn remove_order(&mut self, key: OrderKey, vol: Vol)
         requires
             old(self).0.lv().contains_key(key.1),
@@ -1132,6 +1144,263 @@ impl Book {
         self.orders.push(OrderEntry { order, key });
 
         Ok(order_id)
+    }
+}
+
+// removing resting entry x from the index = excluding it
+proof fn lemma_remove_to_excluded(os: Seq<OrderEntry>, s0: OrderBookSide, sd: Side, x: int, s1: OrderBookSide)
+    requires
+        side_wf(os, s0, sd, -1), 0 <= x < os.len(), rs(os, x, sd, -1),
+        s1.om() == s0.om().remove((os[x].key.1, os[x].key.2)),
+        s1.sv() == s0.sv() - os[x].order.vol,
+        s1.lv() == (if s0.lv()[os[x].key.1].1 == 1 { s0.lv().remove(os[x].key.1) } else { s0.lv().insert(os[x].key.1, ((s0.lv()[os[x].key.1].0 - os[x].order.vol) as u32, (s0.lv()[os[x].key.1].1 - 1) as u32)) }),
+    ensures side_wf(os, s1, sd, x)
+{
+    let n = os.len() as int; let p0 = os[x].key.1;
+    lemma_delta(os, -1, os, x, n, sd, p0, x, x);
+    lemma_member(os, n, sd, -1, x);
+    lemma_nonneg(os, n, sd, -1, p0);
+    assert(s0.lv().contains_key(p0));
+    assert(s0.lv()[p0].1 == lvl_cnt(os, n, sd, -1, p0) && s0.lv()[p0].0 == lvl_vol(os, n, sd, -1, p0));
+    assert forall|i: int| 0 <= i < n && rs(os, i, sd, x) implies (#[trigger] os[i]).order.vol >= 1
+            && s1.om().contains_key((os[i].key.1, os[i].key.2)) && s1.om()[(os[i].key.1, os[i].key.2)] == i by {
+        assert(rs(os, i, sd, -1));
+    }
+    assert forall|k: (Price, Nanos)| #[trigger] s1.om().contains_key(k) implies 0 <= s1.om()[k] < n && rs(os, s1.om()[k] as int, sd, x) && (os[s1.om()[k] as int].key.1, os[s1.om()[k] as int].key.2) == k by {
+        assert(s0.om().contains_key(k));
+    }
+    assert forall|p: u32| #[trigger] s1.lv().contains_key(p) <==> lvl_cnt(os, n, sd, x, p) > 0 by {
+        assert(s0.lv().contains_key(p) <==> lvl_cnt(os, n, sd, -1, p) > 0);
+        lemma_delta(os, -1, os, x, n, sd, p, x, x);
+    }
+    assert forall|p: u32| #[trigger] s1.lv().contains_key(p) implies s1.lv()[p].0 == lvl_vol(os, n, sd, x, p) && s1.lv()[p].1 == lvl_cnt(os, n, sd, x, p) by {
+        lemma_delta(os, -1, os, x, n, sd, p, x, x);
+        assert(s0.lv().contains_key(p) ==> s0.lv()[p].0 == lvl_vol(os, n, sd, -1, p));
+    }
+}
+
+impl Book {
+    fn reduce_order_vol(&mut self, order_entry: &mut OrderEntry, reduce_vol: Vol)
+        requires
+            old(self).wfx(-1), old(order_entry).order.order_id < old(self).orders@.len(),
+            old(self).orders@[old(order_entry).order.order_id as int] == *old(order_entry),
+            old(order_entry).order.status == Status::Active, 1 <= reduce_vol < old(order_entry).order.vol,
+        ensures
+            final(self).wf_after(old(order_entry).order.order_id as int, *final(order_entry)),
+            *final(order_entry) == (OrderEntry { order: Order { vol: (old(order_entry).order.vol - reduce_vol) as u32, ..old(order_entry).order }, key: old(order_entry).key }),  // [C06.only_volume]
+            final(self).bid_side.0.om() == old(self).bid_side.0.om() && final(self).ask_side.0.om() == old(self).ask_side.0.om(),   // [C06.keeps_priority]
+            final(self).orders@ == old(self).orders@, final(self).trades@ == old(self).trades@, final(self).t == old(self).t,
+            final(self).trade_vol == old(self).trade_vol, final(self).trading == old(self).trading, final(self).tick_size == old(self).tick_size,
+    {
+        let ghost x = order_entry.order.order_id as int;
+        let ghost os0 = self.orders@; let ghost bid0 = self.bid_side.0; let ghost ask0 = self.ask_side.0;
+        proof {
+            let e = os0[x]; let n = os0.len() as int;
+            lemma_member(os0, n, e.key.0, -1, x);
+            lemma_nonneg(os0, n, e.key.0, -1, e.key.1);
+            match e.key.0 {
+                Side::Bid => { assert(lvl_cnt(os0, n, Side::Bid, -1, e.key.1) > 0); assert(bid0.lv().contains_key(e.key.1)); }
+                Side::Ask => { assert(lvl_cnt(os0, n, Side::Ask, -1, e.key.1) > 0); assert(ask0.lv().contains_key(e.key.1)); }
+            }
+        }
+        match order_entry.key.0 {
+            Side::Bid => {
+                order_entry.order.vol -= reduce_vol;
+                self.bid_side.remove_vol(order_entry.key.1, reduce_vol)
+            }
+            Side::Ask => {
+                order_entry.order.vol -= reduce_vol;
+                self.ask_side.remove_vol(order_entry.key.1, reduce_vol)
+            }
+        }
+        proof {
+            match os0[x].key.0 {
+                Side::Bid => { lemma_step_wf(os0, bid0, Side::Bid, -1, x, *order_entry, self.bid_side.0, reduce_vol); lemma_other_side(os0, ask0, Side::Ask, -1, x, *order_entry); }
+                Side::Ask => { lemma_step_wf(os0, ask0, Side::Ask, -1, x, *order_entry, self.ask_side.0, reduce_vol); lemma_other_side(os0, bid0, Side::Bid, -1, x, *order_entry); }
+            }
+        }
+    }
+}
+
+impl Book {
+    spec fn pkey(sd: Side, p: Price) -> u32 { match sd { Side::Ask => p, Side::Bid => (u32::MAX - p) as u32 } }
+    spec fn side_of(&self, sd: Side) -> OrderBookSide { match sd { Side::Ask => self.ask_side.0, Side::Bid => self.bid_side.0 } }
+
+    fn replace_order(&mut self, order_entry: &mut OrderEntry, new_price: Price, new_vol: Vol)
+        requires
+            old(self).wfx(-1), old(order_entry).order.order_id < old(self).orders@.len(),
+            old(self).orders@[old(order_entry).order.order_id as int] == *old(order_entry),
+            old(order_entry).order.status == Status::Active,
+            new_vol >= 1, 0 < new_price < u32::MAX,
+            old(self).trade_vol as int + new_vol <= u32::MAX,
+            old(self).side_of(old(order_entry).key.0).sv() + new_vol <= u32::MAX,
+            // [discipline] after taking the order out, nothing rests on its side at (new price key, t)
+            !old(self).side_of(old(order_entry).key.0).om().remove((old(order_entry).key.1, old(order_entry).key.2)).contains_key((Self::pkey(old(order_entry).key.0, new_price), old(self).t)),
+        ensures
+            final(self).wf_after(old(order_entry).order.order_id as int, *final(order_entry)),
+            final(self).orders@.len() == old(self).orders@.len(), final(self).t == old(self).t, final(self).trading == old(self).trading,
+            // [C06.identity]
+            final(order_entry).order.order_id == old(order_entry).order.order_id && final(order_entry).order.trader_id == old(order_entry).order.trader_id
+                && final(order_entry).order.arr_time == old(order_entry).order.arr_time && final(order_entry).order.start_vol == old(order_entry).order.start_vol
+                && final(order_entry).order.price == new_price && final(order_entry).key.0 == old(order_entry).key.0,
+            // [C06.requeued] not filled => resting under a fresh key stamped with the current time
+            final(order_entry).order.status != Status::Filled ==> final(order_entry).order.status == Status::Active
+                && final(order_entry).key == (old(order_entry).key.0, Self::pkey(old(order_entry).key.0, new_price), old(self).t),
+            // [C13] no trading => no trade, volume as requested
+            !old(self).trading ==> final(self).trades@ == old(self).trades@ && final(order_entry).order.vol == new_vol,
+    {
+        let ghost x = order_entry.order.order_id as int;
+        let ghost os0 = self.orders@; let ghost bid0 = self.bid_side.0; let ghost ask0 = self.ask_side.0;
+        let ghost sd = order_entry.key.0;
+        proof {
+            let e = os0[x]; let n = os0.len() as int;
+            lemma_member(os0, n, e.key.0, -1, x);
+            lemma_nonneg(os0, n, e.key.0, -1, e.key.1);
+            match e.key.0 {
+                Side::Bid => { assert(lvl_cnt(os0, n, Side::Bid, -1, e.key.1) > 0); assert(bid0.lv().contains_key(e.key.1)); }
+                Side::Ask => { assert(lvl_cnt(os0, n, Side::Ask, -1, e.key.1) > 0); assert(ask0.lv().contains_key(e.key.1)); }
+            }
+        }
+        match order_entry.key.0 {
+            Side::Bid => self
+                .bid_side
+                .remove_order(order_entry.key, order_entry.order.vol),
+            Side::Ask => self
+                .ask_side
+                .remove_order(order_entry.key, order_entry.order.vol),
+        }
+        proof {
+            match sd {
+                Side::Bid => { lemma_remove_to_excluded(os0, bid0, Side::Bid, x, self.bid_side.0); lemma_exclude_nonresting(os0, ask0, Side::Ask, x); }
+                Side::Ask => { lemma_remove_to_excluded(os0, ask0, Side::Ask, x, self.ask_side.0); lemma_exclude_nonresting(os0, bid0, Side::Bid, x); }
+            }
+        }
+
+        order_entry.order.vol = new_vol;
+        order_entry.order.price = new_price;
+
+        proof {
+            lemma_ref_match_bid_props(self.orders@, self.trades@, self.trade_vol as int, order_entry.order, self.t, x);
+            lemma_ref_match_ask_props(self.orders@, self.trades@, self.trade_vol as int, order_entry.order, self.t, x);
+        }
+        if self.trading {
+            match order_entry.key.0 {
+                Side::Bid => self.match_bid(order_entry),
+                Side::Ask => self.match_ask(order_entry),
+            }
+        }
+
+        if order_entry.order.status != Status::Filled {
+            match order_entry.key.0 {
+                Side::Bid => {
+                    let key: OrderKey = get_bid_key(self.t, new_price);
+                    order_entry.key = key;
+                    let ghost s0 = self.bid_side.0;
+                    proof {
+                        let os = self.orders@; let n = os.len() as int;
+                        lemma_nonneg(os, n, Side::Bid, x, key.1);
+                        if s0.lv().contains_key(key.1) { lemma_cnt_le_vol(os, n, Side::Bid, x, key.1); }
+                    }
+
+                    self.bid_side.insert_order(
+                        key,
+                        order_entry.order.order_id,
+                        order_entry.order.vol,
+                    );
+                    proof {
+                        lemma_insert_wf(self.orders@, s0, Side::Bid, x, *order_entry, self.bid_side.0);
+                        lemma_unexclude_other(self.orders@, self.ask_side.0, Side::Ask, x, *order_entry);
+                    }
+                }
+                Side::Ask => {
+                    let key: OrderKey = get_ask_key(self.t, new_price);
+                    order_entry.key = key;
+                    let ghost s0 = self.ask_side.0;
+                    proof {
+                        let os = self.orders@; let n = os.len() as int;
+                        lemma_nonneg(os, n, Side::Ask, x, key.1);
+                        if s0.lv().contains_key(key.1) { lemma_cnt_le_vol(os, n, Side::Ask, x, key.1); }
+                    }
+
+                    self.ask_side.insert_order(
+                        key,
+                        order_entry.order.order_id,
+                        order_entry.order.vol,
+                    );
+                    proof {
+                        lemma_insert_wf(self.orders@, s0, Side::Ask, x, *order_entry, self.ask_side.0);
+                        lemma_unexclude_other(self.orders@, self.bid_side.0, Side::Bid, x, *order_entry);
+                    }
+                }
+            }
+        }
+        proof {
+            if order_entry.order.status == Status::Filled {
+                lemma_unexclude_other(self.orders@, self.bid_side.0, Side::Bid, x, *order_entry);
+                lemma_unexclude_other(self.orders@, self.ask_side.0, Side::Ask, x, *order_entry);
+            }
+        }
+    }
+}
+
+impl Book {
+    spec fn replace_pre(&self, e: OrderEntry, p: Price, v: Vol) -> bool {
+        &&& v >= 1 && 0 < p < u32::MAX
+        &&& self.trade_vol as int + v <= u32::MAX
+        &&& self.side_of(e.key.0).sv() + v <= u32::MAX
+        &&& !self.side_of(e.key.0).om().remove((e.key.1, e.key.2)).contains_key((Self::pkey(e.key.0, p), self.t))
+    }
+    fn modify_order(&mut self, order_id: OrderId, new_price: Option<Price>, new_vol: Option<Price>)
+        requires
+            old(self).wfx(-1), order_id < old(self).orders@.len(),
+            old(self).orders@[order_id as int].order.status == Status::Active ==> {
+                let e = old(self).orders@[order_id as int];
+                match (new_price, new_vol) {
+                    (None, None) => true,
+                    (None, Some(v)) => v >= 1 && (v >= e.order.vol ==> old(self).replace_pre(e, e.order.price, v) ),
+                    (Some(p), None) => old(self).replace_pre(e, p, e.order.vol),
+                    (Some(p), Some(v)) => old(self).replace_pre(e, p, v),
+                }
+            },
+            old(self).orders@[order_id as int].order.status == Status::Active ==> 0 < old(self).orders@[order_id as int].order.price < u32::MAX,
+        ensures
+            final(self).wfx(-1), final(self).orders@.len() == old(self).orders@.len(),
+            // [C04.noop] / [C06.nothing_to_change]
+            (old(self).orders@[order_id as int].order.status != Status::Active || (new_price is None && new_vol is None)) ==> final(self).obs_eq(*old(self)),
+            // [C06.only_volume] a pure reduction keeps the queue
+            (old(self).orders@[order_id as int].order.status == Status::Active && new_price is None && new_vol is Some && new_vol->0 < old(self).orders@[order_id as int].order.vol) ==>
+                final(self).orders@ == old(self).orders@.update(order_id as int, OrderEntry { order: Order { vol: new_vol->0, ..old(self).orders@[order_id as int].order }, key: old(self).orders@[order_id as int].key })
+                && final(self).bid_side.0.om() == old(self).bid_side.0.om() && final(self).ask_side.0.om() == old(self).ask_side.0.om()
+                && final(self).trades@ == old(self).trades@,
+            // [C06.identity]
+            final(self).orders@[order_id as int].order.order_id == order_id && final(self).orders@[order_id as int].order.trader_id == old(self).orders@[order_id as int].order.trader_id
+                && final(self).orders@[order_id as int].order.arr_time == old(self).orders@[order_id as int].order.arr_time
+                && final(self).orders@[order_id as int].order.start_vol == old(self).orders@[order_id as int].order.start_vol,
+    {
+        let mut order_entry = self.orders[order_id];
+
+        if order_entry.order.status == Status::Active {
+            match (new_price, new_vol) {
+                (None, None) => (),
+                (None, Some(v)) => {
+                    if v < order_entry.order.vol {
+                        let reduce_vol = order_entry.order.vol - v;
+                        self.reduce_order_vol(&mut order_entry, reduce_vol);
+                    } else {
+                        let p = order_entry.order.price;
+                        self.replace_order(&mut order_entry, p, v)
+                    }
+                }
+                (Some(p), None) => {
+                    let v = order_entry.order.vol;
+                    self.replace_order(&mut order_entry, p, v);
+                }
+                (Some(p), Some(v)) => self.replace_order(&mut order_entry, p, v),
+            }
+        }
+
+        proof { assert(self.orders@.update(order_id as int, self.orders@[order_id as int]) =~= self.orders@); }
+        self.orders[order_id] = order_entry;
     }
 }
 // every resting order has volume >= 1, so counts are bounded by volumes
